@@ -322,6 +322,13 @@ impl BudgetEnforcer {
             self.ratio_breach_reported = false;
             return Ok(());
         }
+        if self.policy == EnforcingPolicy::PerDocument
+            && matches!(ev, Event::StreamStart | Event::StreamEnd)
+        {
+            // The stream markers belong to no document: counted, the last document of a stream
+            // would be charged one event more than the same document followed by another one.
+            return Ok(());
+        }
         self.report.events += 1;
         if self.report.events > self.budget.max_events {
             return Err(BudgetBreach::Events {
